@@ -23,9 +23,8 @@ Definition value_piece (p : piece) : list byte :=
 Definition word := list piece.
 Definition render_word (w : word) := concat (map render_piece w).
 Definition value_word (w : word) := concat (map value_piece w).
-(* a word the property speaks about: well-formed pieces, non-empty value
-   (the property is silent on empty quoted arguments such as '') *)
-Definition good_word (w : word) : bool := forallb piece_ok w && nonempty (value_word w).
+(* a word: at least one well-formed piece; its value may be empty ('' and "" are arguments) *)
+Definition good_word (w : word) : bool := forallb piece_ok w && nonempty w.
 
 Definition all_ws (s : list byte) : bool := forallb is_ws s.
 Definition hard_of (s : list byte) : bool := match s with c :: _ => c =? 10 | [] => false end.
